@@ -45,7 +45,7 @@ ASSUMPTIONS = [
     "hostile absolute paths and traversals stay inside the scratch area (the harness must not touch the real file system)",
     "allowed resource directories: <repo>/pdfminer/cmap and the directory named by CMAP_PATH",
 ]
-PROBES = ["site:encoding-name", "site:cmapname-stream", "site:usecmap", "site:registry-ordering", "site:image-name", "site:image-attr", "name:dotdot", "name:absolute", "name:nul", "name:long", "name:existing-file", "name:separator", "name:sibling-prefix", "name:lookalike", "state:CMAP_PATH unset", "state:outdir-absent", "state:outdir-nested", "state:preexisting-image-name", "second export in the same process", "image exported", "bait file present at traversal target"]
+PROBES = ["site:encoding-name", "site:cmapname-stream", "site:usecmap", "site:registry-ordering", "site:image-name", "site:image-attr", "name:dotdot", "name:absolute", "name:nul", "name:long", "name:existing-file", "name:separator", "name:sibling-prefix", "name:lookalike", "state:CMAP_PATH unset", "state:long run of occupied names", "state:outdir-absent", "state:outdir-nested", "state:preexisting-image-name", "second export in the same process", "image exported", "bait file present at traversal target"]
 TIERS = {
     "quick": {"batches": 16, "runs": 500, "budget_s": 45},
     "thorough": {"batches": 128, "runs": 500, "budget_s": 900},
@@ -338,6 +338,17 @@ def run(tape, ctx, item=None):
                     ctx.probe("state:preexisting-image-name")
             pre.append(os.path.join(outdir, "existing.bmp"))
             pre.append(os.path.join(outdir, "existing.jpg"))
+            if t.coin(3, 100, "state.longrun"):
+                # a long unbroken run of occupied candidate names: the search for a free one has to go all the way
+                run_n = t.pick([10, 100, 257, 1000, 1024, 1100], "state.longrun.n")
+                for site, nm in names:
+                    if site == "image-name" and len(nm) < 100:
+                        flat = os.path.basename(nm.replace(b"\x00", b"_").decode("latin-1").replace("/", "_").replace("\\", "_"))
+                        for ext in (".bmp", ".jpg"):
+                            pre.append(os.path.join(outdir, flat + ext))
+                            pre.extend(os.path.join(outdir, "%s.%d%s" % (flat, k, ext)) for k in range(run_n))
+                        ctx.probe("state:long run of occupied names")
+                        break
         pre.append(os.path.join(sim_cmap_dir, "existing.pickle.gz"))
         for p in list(pre):
             try:
